@@ -549,6 +549,8 @@ func runC09(c *Ctx) {
 		}
 		return true
 	}
+	corr := &Batch{c: c}
+	defer corr.Flush()
 	one := func(idx int, fam string, d []byte, allMarkers bool) {
 		d = bytes.ReplaceAll(d, []byte("\t"), []byte(" "))
 		d = bytes.ReplaceAll(d, []byte("\r"), []byte(""))
@@ -558,6 +560,10 @@ func runC09(c *Ctx) {
 		c.count(string(d), nt)
 		if nt && len(d) < 50 && len(d) > 8 {
 			c.sample(printable(d))
+		}
+		if idx%4 == 0 && len(d) <= 3000 {
+			// the quoted form through the Lean model of Parse (multi-line inline constructs inside a container)
+			parseCorr(c, corr, quoteDoc(d))
 		}
 		if r := c09Quote(d); r != "" {
 			c.report("quote-nesting", d, fam, r, func(x []byte) bool { return !bytes.ContainsAny(x, "\t\r\x00") && c09Quote(x) != "" }, func(m []byte) string { return c09Quote(m) })
@@ -724,12 +730,25 @@ var c14Pads = []string{"\n", "\n\n", "  \n", " \t \n\n", "\r\n", "\r", "\n\r\n  
 
 func runC14(c *Ctx) {
 	c.Res.Rule = "documents from corpus + seeded generators; (a) CR-free documents vs their CRLF and CR forms, compared on the rendering (3 configurations) after mapping CRLF/CR to LF; (b) every document vs itself behind each of 7 blank-line prefixes (LF, CRLF, CR, spaces/tabs), compared on trees, Source, reference map and exact offset/line shift; (c) documents without a final line ending vs themselves with LF appended, safe-mode rendering modulo whitespace directly before a closing block tag; plus all truncations of corpus documents for (c); non-trivial = >= 2 lines and a block/inline construct character; distinct by input bytes"
+	corr := &Batch{c: c}
+	defer corr.Flush()
 	one := func(idx int, fam string, x []byte) {
 		c.fam(fam, "cases", 1)
 		nt := bytes.Count(x, []byte("\n")) >= 1 && bytes.ContainsAny(x, "[<*_`#>-=")
 		c.count(string(x), nt)
 		if nt && len(x) < 50 && len(x) > 8 {
 			c.sample(printable(x))
+		}
+		if idx%4 == 0 && len(x) <= 3000 {
+			// the CRLF / CR / final-newline-less forms through the Lean model of Parse
+			switch (idx / 4) % 3 {
+			case 0:
+				parseCorr(c, corr, bytes.ReplaceAll(x, []byte("\n"), []byte("\r\n")))
+			case 1:
+				parseCorr(c, corr, bytes.ReplaceAll(x, []byte("\n"), []byte("\r")))
+			default:
+				parseCorr(c, corr, bytes.TrimRight(x, "\r\n"))
+			}
 		}
 		if bytes.IndexByte(x, '\r') < 0 {
 			for _, eol := range []string{"\r\n", "\r"} {
@@ -828,8 +847,13 @@ func c16Check(doc []byte) (string, int) {
 
 func runC16(c *Ctx) {
 	c.Res.Rule = "every root block of every generated document (corpus + seeded generators incl. CR/CRLF, tabs, NUL, invalid UTF-8; exhaustive short strings) is re-parsed alone through NewBlockParser + Rewrite with the document's reference map and compared on the full tree (kinds, attributes, spans) and Source; the stated exception (a paragraph starting where a preceding reference-definition root ends) is skipped; non-trivial = the document has >= 2 root blocks; distinct by input bytes"
+	corr := &Batch{c: c}
+	defer corr.Flush()
 	one := func(idx int, fam string, doc []byte) {
 		c.fam(fam, "cases", 1)
+		if idx%4 == 0 && len(doc) <= 3000 {
+			parseCorr(c, corr, doc)
+		}
 		r, _ := c16Check(doc)
 		res := parseMem(doc)
 		nt := len(res.roots) >= 2
